@@ -768,7 +768,7 @@ fn named4_for(thorough: bool) -> Vec<Cfg> {
     if thorough {
         return with_orders(named4());
     }
-    let keep = ["diamond-S-middle", "agg-over-two-services", "agg-over-B+S", "nested-aggregates", "B-S-B-chain", "two-roots-sharing-leaf", "dep-before-dependent", "dependent-before-dep"];
+    let keep = ["diamond-S-middle", "agg-over-two-services", "agg-over-B+S", "nested-aggregates", "B-S-B-chain", "two-roots-sharing-leaf", "dep-before-dependent", "dependent-before-dep", "build-over-aggregate-of-two-builds", "service-over-aggregate-of-build-and-service"];
     named4().into_iter().filter(|c| keep.contains(&c.name.as_str())).collect()
 }
 
@@ -997,7 +997,8 @@ pub fn check_c10(rep: &mut Report) {
     let dl = deadline(rep, 150, 3000);
     // exact mode, signal at every state, afterwards no script ends by itself
     let mut v = vec![];
-    let caps: Vec<Option<usize>> = vec![Some(2), None];
+    // capacity 1 and 2 (thorough: also the real capacity 64, where nothing ever blocks)
+    let caps: Vec<Option<usize>> = if rep.thorough() { vec![Some(1), Some(2), None] } else { vec![Some(1), Some(2)] };
     let base: Vec<Cfg> = small_cfgs(2, 2).into_iter().filter(distinct_roots).collect();
     for cap in &caps {
         for c in &base {
@@ -1013,7 +1014,7 @@ pub fn check_c10(rep: &mut Report) {
         }
     }
     let out = sweep(v, &mk, dl, 3_000_000);
-    fill_report(rep, &out, "exact: graphs <=2 targets, one-shot and watch, queue capacity 2 and 64, signal injected at every state, restricted afterwards");
+    fill_report(rep, &out, "exact: graphs <=2 targets, one-shot and watch, queue capacity 1 and 2 (thorough: and 64), signal injected at every state, restricted afterwards");
     // failure exit path
     let mut v = vec![];
     for c in &base {
